@@ -18,13 +18,13 @@ DASH == 45
 EQ   == 61
 
 \* the flag set used by the model and by the harness (kinds as in config/value.go)
-NameB == <<98>>    NameS == <<115>>    NameI == <<105>>    NameHelp == <<104, 101, 108, 112>>    NameConfig == <<99, 111, 110, 102, 105, 103>>
-FlagKinds == (NameB :> "bool") @@ (NameS :> "string") @@ (NameI :> "int")
+NameT == <<116>>    NameB == <<98>>    NameS == <<115>>    NameI == <<105>>    NameHelp == <<104, 101, 108, 112>>    NameConfig == <<99, 111, 110, 102, 105, 103>>
+FlagKinds == (NameB :> "bool") @@ (NameT :> "bool") @@ (NameS :> "string") @@ (NameI :> "int")
              @@ (NameHelp :> "bool") @@ (NameConfig :> "string")
 Kind(name) == IF name \in DOMAIN FlagKinds THEN FlagKinds[name] ELSE "undefined"
 TrueText == <<116, 114, 117, 101>>
 
-\* defaults of the harness struct: B=false, S="d", I=3
+\* defaults of the harness struct: B=false, T=true (a boolean flag that is on unless switched off), S="d", I=3
 NoAssign == [n \in DOMAIN FlagKinds |-> <<"unset">>]
 SetText(asg, name, text) == [asg EXCEPT ![name] = <<"set", text>>]
 Ok(asg, rest, stopped) == [err |-> FALSE, why |-> "", asg |-> asg, rest |-> rest, stopped |-> stopped]
@@ -119,15 +119,16 @@ IntClass(t) ==
 \* ExistingConfig: the one config path that exists (holds "{}"); any other non-empty path fails
 Outcome(args, ExistingConfig) ==
   LET g == Grammar(args) IN
-  IF g.err THEN [err |-> "yes", b |-> FALSE, s |-> <<>>, i |-> 0, iknown |-> FALSE, help |-> FALSE, rest |-> <<>>]
+  IF g.err THEN [err |-> "yes", b |-> FALSE, t |-> FALSE, s |-> <<>>, i |-> 0, iknown |-> FALSE, help |-> FALSE, rest |-> <<>>]
   ELSE LET A == g.asg
            bt == IF A[NameB][1] = "set" THEN BoolClass(A[NameB][2]) ELSE "false"
+           tt == IF A[NameT][1] = "set" THEN BoolClass(A[NameT][2]) ELSE "true"
            ht == IF A[NameHelp][1] = "set" THEN BoolClass(A[NameHelp][2]) ELSE "false"
            ic == IF A[NameI][1] = "set" THEN IntClass(A[NameI][2]) ELSE [c |-> "valid", v |-> 3]
            cfgBad == A[NameConfig][1] = "set" /\ A[NameConfig][2] # <<>> /\ A[NameConfig][2] # ExistingConfig
-           bad == bt = "invalid" \/ ht = "invalid" \/ ic.c = "invalid" \/ cfgBad
+           bad == bt = "invalid" \/ tt = "invalid" \/ ht = "invalid" \/ ic.c = "invalid" \/ cfgBad
        IN [err |-> IF bad THEN "yes" ELSE IF ic.c = "unknown" THEN "unknown" ELSE "no",
-           b |-> bt = "true", help |-> ht = "true",
+           b |-> bt = "true", t |-> tt = "true", help |-> ht = "true",
            s |-> IF A[NameS][1] = "set" THEN A[NameS][2] ELSE <<100>>,
            i |-> ic.v, iknown |-> ic.c = "valid", rest |-> g.rest]
 
